@@ -313,4 +313,25 @@ example :
   simp only [List.mem_cons, List.not_mem_nil, or_false] at ho
   rcases ho with rfl | rfl | rfl <;> exact ⟨by decide, rfl, by decide, by decide, by decide⟩
 
+/-- The chain helpers `Do`, `AbortIf`, `WithValidation` of both chains: they never touch the buffer / source / offset,
+and under a stored error they do nothing at all (the callback is not called, the error stays). -/
+theorem C01_chain_helpers_spec (s : Ser) (d : De) (h : Helper) :
+    (s.helper h).1.buf = s.buf ∧ (s.err.isSome = true → s.helper h = (s, none)) ∧
+    (d.helper h).1.src = d.src ∧ (d.helper h).1.off = d.off ∧ (d.err.isSome = true → d.helper h = (d, none)) := by
+  refine ⟨?_, ?_, ?_, ?_, ?_⟩
+  · cases h <;> simp only [Ser.helper, helperStep] <;> (repeat' split) <;> rfl
+  · intro he
+    cases h <;> simp [Ser.helper, helperStep, he]
+  · cases h <;> simp only [De.helper, helperStep] <;> (repeat' split) <;> rfl
+  · cases h <;> simp only [De.helper, helperStep] <;> (repeat' split) <;> rfl
+  · intro he
+    cases h <;> simp [De.helper, helperStep, he]
+
+/-- `WithValidation` hands its producer exactly the bytes written so far / consumed so far, and only with the validation
+bit and without a stored error. -/
+theorem C01_chain_withValidation_spec (s : Ser) (d : De) (validation fail : Bool) (hs : s.err = none) (hd : d.err = none) :
+    (s.helper (.withValidation validation fail)).2 = (if validation then some s.buf else none) ∧
+    (d.helper (.withValidation validation fail)).2 = (if validation then some (d.src.take d.off) else none) := by
+  cases validation <;> simp [Ser.helper, De.helper, helperStep, hs, hd]
+
 end Hive.Serix
